@@ -471,6 +471,19 @@ same("C17", "r6-arccos-minmax", E + "Models/_phasefield.py", "            np.cli
 same("C19", "r6-convergence-local-magnitude", E + "Models/InElastic/_behavior.py", "            if np.max(np.abs(r_e_pg)) < tol:\n", "            err_e_pg = np.abs(r_e_pg)\n            if err_e_pg.max() < tol:\n")
 same("C19", "r6-convergence-two-sided-chain", E + "Models/InElastic/_materialpoint.py", "                if np.max(np.abs(r)) < self._tol:\n", "                if -self._tol < np.min(r) and np.max(r) < self._tol:\n")
 
+# ---------------------------------------------------------------- round 7 repairs: the rules that decided them
+mut("C19", "r7-jacobian-branch-sign", E + "Models/InElastic/_behavior.py", "                J_e_pg[..., P, slot] = branch.g * dG_e_pg * dNdSig_C\n", "                J_e_pg[..., P, slot] = -branch.g * dG_e_pg * dNdSig_C\n", "__Jacobian")
+mut("C19", "r7-jacobian-D-viscous-sign", E + "Models/InElastic/_behavior.py", "            D_e_pg[..., slot, :] = -theta * I6\n", "            D_e_pg[..., slot, :] = theta * I6\n", "__Jacobian")
+mut("C19", "r7-jacobian-backstrain-branch-dropped", E + "Models/InElastic/_behavior.py", "                    J_e_pg[..., Bj, slot] = branch.g * dG_e_pg * dNdSig_C\n", "                    pass\n", "__Jacobian")
+mut("C19", "r7-plane-stress-test-first", E + "Models/InElastic/_behavior.py", "            if it > 0 and np.max(np.abs(r_e_pg)) < tol:\n", "            if np.max(np.abs(r_e_pg)) < tol:\n", "__Plane_stress_strain")
+mut("C14", "r7-reloaded-mesh-unobserved", E + "Simulations/_simu.py", "            mesh._Add_observer(self)\n\n        self.__mesh = mesh\n", "\n        self.__mesh = mesh\n", "__Update_mesh")
+mut("C10", "r7-bar-direction-dropped", E + "FEM/Elems/_beam.py", "            idx_ux = idx[:, 0]\n            B_e_pg = np.zeros((Ne, nPg, 1, dof_n * nPe), dtype=float)\n            B_e_pg[:, :, 0, idx_ux] = self._Get_x_direction_e_pg() * np.asarray(\n", "            idx_ux = idx[:, 0]\n            B_e_pg = np.zeros((Ne, nPg, 1, dof_n * nPe), dtype=float)\n            B_e_pg[:, :, 0, idx_ux] = np.asarray(\n", "Get_beam_B_e_pg")
+mut("C04", "r7-joint-single-condition", E + "Simulations/_beam.py", "                for node in nodes[1:]:\n                    pair = np.asarray([nodes[0], node])\n", "                for node in nodes[1:2]:\n                    pair = np.asarray([nodes[0], node])\n", "add_connection")
+mut("C16", "r7-reaction-multiplier-columns", E + "Simulations/_simu.py", "        reaction[dofs] = K[dofs][:, :Ndof] @ u\n", "        reaction[dofs] = K[dofs] @ u\n", "Calc_Reaction")
+mut("C12", "r7-rank3-subscript-dropped", E + "FEM/_linalg.py", "        _idx = {0: \"\", 1: \"i\", 2: \"ij\", 3: \"ijk\", 4: \"ijkl\"}\n        idx1 = _idx[ndim1]\n        idx2 = \"\".join(chr(ord(v) + ndim1 - 1) for v in _idx[ndim2])", "        _idx = {0: \"\", 1: \"i\", 2: \"ij\", 4: \"ijkl\"}\n        idx1 = _idx[ndim1]\n        idx2 = \"\".join(chr(ord(v) + ndim1 - 1) for v in _idx[ndim2])", "_dot_subscript")
+same("C19", "r7-jacobian-loop-zip", E + "Models/InElastic/_behavior.py", "                for j in range(len(self.__kinematic)):\n                    Bj = layout.slots[f\"{Slot.alpha}{j}\"]\n                    J_e_pg[..., Bj, slot] = branch.g * dG_e_pg * dNdSig_C\n", "                for j, _component in enumerate(self.__kinematic):\n                    J_e_pg[..., layout.slots[f\"{Slot.alpha}{j}\"], slot] = dG_e_pg * dNdSig_C * branch.g\n")
+same("C04", "r7-joint-loop-index", E + "Simulations/_beam.py", "                for node in nodes[1:]:\n                    pair = np.asarray([nodes[0], node])\n", "                for k in range(1, len(nodes)):\n                    pair = np.asarray([nodes[0], nodes[k]])\n")
+
 
 def apply_edit(root, e):
     if e.get("patch"):
